@@ -33,8 +33,8 @@ CHECKS = {
    text="rank_Q = free rank_Z; dim_Fp(i) = rank(i) + #p-torsion(i) + #p-torsion(i+1) for p = 2, 3 at every (h,t) of the box (general (h,t) produce 2-, 3- and 9-torsion that h=t=0 does not).",
    note=S_NOTE + KH_NOTE + "Outside: coprime torsion in one degree, i128/BigInt machine instantiations.", design="5/C03"),
  "C05": dict(engine="S", category="model_checking",
-   technique="concolic symbolic execution of KhComplex::new with UNBOUNDED symbolic (h,t): every entry of d_{i+1} d_i is a polynomial in (h,t) that must vanish on the class (syntactic identity or z3); generators sit in their homological degree",
-   text="Part (a) of the property (d∘d=0, d raises h-degree by one) over Z for all integers (h,t) per explored class. Parts (b) q-homogeneity with deg h=-2, deg t=-4 and (c) specialisation from Z[H,T] are NOT covered (no symbolic polynomial-ring run was built).",
+   technique="concolic symbolic execution of KhComplex::new with UNBOUNDED symbolic (h,t): every entry of d_{i+1} d_i is a polynomial in (h,t) that must vanish on the class (syntactic identity or z3); complex over Z[H,T] (Poly2 over the symbolic integer): q-homogeneity of every entry, evaluation at the symbolic point and comparison of homology with the direct build (z3, reference Smith form under the same path)",
+   text="(a) d∘d=0 and h-degree over Z for all integers (h,t) per explored class; (b) every non-zero entry c H^a T^b of the Z[H,T] complex from x to y satisfies q(y)-q(x)=2a+4b; (c) the Z[H,T] complex evaluated at (h,t) in a box has the homology of the complex built at (h,t).",
    note=S_NOTE + KH_NOTE, design="5/C05"),
  "C06": dict(engine="S", category="model_checking",
    technique="concolic symbolic execution of canon_cycles / KhHomology / ss_invariant with symbolic h (t=0) resp. symbolic prime c in {2,3,5,7} (solver-side primality constraint): cycles of degree 0, non-torsion classes for h != 0 (z3), Lee rank 2^components, ss equal across diagram pairs and reduced/unreduced, negated by mirror, crossing-change inequality",
